@@ -120,6 +120,14 @@ static long one_run(const std::string &prof, uint64_t seed, const JV *replay, Ag
     ref.execute();
     if (getenv("SIM_DUMP_TX")) for (auto &t : W.txs) fprintf(stderr, "REFTX t=%lld fd=%d srv=%d %s %s type=%d attempt=%d beh=%s off=%zu len=%zu\n", (long long)t.t, t.fd, t.server, t.tcp ? "tcp" : "udp", t.qname_lc.c_str(), t.msg.qd.empty() ? -1 : t.msg.qd[0].type, t.attempt, beh_name[t.behaviour], t.stream_off, t.wire.size());
   }
+  if (prof == "C14" && replay && cfg.knob("fail_at", -1) > 0) {
+    // the differential part of the C14 verdict needs the failure-free execution of the same plan
+    RunCfg rc = cfg; rc.knobs.erase("fail_at");
+    Run ref(rc);
+    ref.plan = plan;
+    profile_attach(ref);
+    ref.execute();
+  }
   Run run(cfg);
   run.plan = plan;
   profile_attach(run);
